@@ -104,7 +104,8 @@ class CContext:
             raise TypeError(f"typ should be CType: {typ}")
 
         if isinstance(typ, types.ArrayType):
-            assert typ.size is not None
+            if typ.size is None:
+                self.error("Size of incomplete array type is unknown", None)
             element_size = self.sizeof(typ.element_type)
             if isinstance(typ.size, int):
                 array_size = typ.size
@@ -112,21 +113,23 @@ class CContext:
                 array_size = self.eval_expr(typ.size)
             size = element_size * array_size
         elif isinstance(typ, types.BasicType):
+            if typ.type_id not in self.type_size_map:
+                self.error(f"Size of type {typ.type_id} is unknown", None)
             size = self.type_size_map[typ.type_id][0]
         elif isinstance(typ, types.StructType):
             if not typ.is_complete:
-                self.error("Storage size unknown", typ.location)
+                self.error("Storage size unknown", None)
             size = self.get_field_offsets(typ)[0]
         elif isinstance(typ, types.UnionType):
             if not typ.is_complete:
-                self.error("Type is incomplete, size unknown", typ)
+                self.error("Type is incomplete, size unknown", None)
             if typ.fields:
                 size = max(self.sizeof(part.typ) for part in typ.fields)
             else:
                 size = 0
         elif isinstance(typ, types.EnumType):
             if not typ.is_complete:
-                self.error("Storage size unknown", typ)
+                self.error("Storage size unknown", None)
             # For enums take int as the type
             size = self.arch_info.get_size("int")
         elif isinstance(typ, (types.PointerType, types.FunctionType)):
